@@ -10,6 +10,7 @@ import (
 
 	"verif/lib/enum"
 	"verif/lib/maph"
+	"gopkg.in/typ.v4/sync2"
 	"verif/lib/seqmc"
 	"verif/lib/spell"
 )
@@ -52,6 +53,11 @@ func main() {
 			}
 		}
 	}
+	for _, n := range ev.Pick(r, []int{5, 64, 4097, 16385, 70001}, []int{5, 64, 4097, 16385, 70001, 1<<20 + 1}) {
+		if msg := reentrantBig(n, &famCalls); msg != "" {
+			r.Report(ev.Violation{Sig: "family|reentrant-range", Msg: msg, Replay: map[string]any{"family": "reentrant-range", "keys": n}})
+		}
+	}
 	// long-history churn: ONE map, hundreds of thousands of calls over 12 keys (behaviour keyed to a
 	// count of operations: compaction after N deletes, counters that wrap), every result compared
 	{
@@ -83,6 +89,91 @@ func main() {
 	r.Set("keys", keys)
 	r.Sample(map[string]any{"sequential": "Store(0,1) Load(0) Delete(0) Store(1,1) -> key 0 expunged, then Store(0,2) must re-enter the dirty map"})
 	r.Finish()
+}
+
+// reentrantBig: ONE goroutine, a map of n keys (n above any plausible size threshold), and Range calls
+// whose callback itself uses the map - Store of a new key, a complete nested Range (which promotes),
+// another Store, Load and Delete of keys - while the outer Range is still walking. The contract of Range
+// allows all of this. Oracle: the outer Range visits every key that was present and untouched for the
+// whole call exactly once with its value, nothing twice, and only values the key really held.
+func reentrantBig(n int, calls *int) string {
+	m := new(sync2.Map[int, int])
+	model := map[int]int{}
+	for k := 0; k < n; k++ {
+		m.Store(k, k+1)
+		model[k] = k + 1
+	}
+	*calls += n
+	for round := 0; round < 3; round++ {
+		touched := map[int]bool{} // keys stored or deleted during this outer Range
+		seen := map[int]int{}
+		step := 0
+		bad := ""
+		fresh := n + 10*round
+		m.Range(func(k, v int) bool {
+			if _, dup := seen[k]; dup && bad == "" {
+				bad = fmt.Sprintf("the outer Range visited key %d twice", k)
+			}
+			seen[k] = v
+			if w, ok := model[k]; bad == "" && !touched[k] && (!ok || w != v) {
+				bad = fmt.Sprintf("the outer Range visited (%d,%d), the map holds (%d,%v) for that key", k, v, w, ok)
+			}
+			step++
+			switch step {
+			case 1, n / 2:
+				m.Store(fresh, 7) // a new key: goes to the dirty map
+				model[fresh], touched[fresh] = 7, true
+				fresh++
+				inner := 0
+				m.Range(func(int, int) bool { inner++; return true }) // promotes
+				if inner != len(model) && bad == "" {
+					bad = fmt.Sprintf("a Range nested in the callback visited %d keys, the map holds %d", inner, len(model))
+				}
+				m.Store(fresh, 8) // another new key: the dirty map is created again
+				model[fresh], touched[fresh] = 8, true
+				fresh++
+				*calls += 3
+			case 2, n/2 + 1:
+				victim := (k + n/3) % n
+				m.Delete(victim)
+				delete(model, victim)
+				touched[victim] = true
+				if w, ok := m.Load(k); (!ok || w != v) && !touched[k] && bad == "" {
+					bad = fmt.Sprintf("Load(%d) inside the callback = (%d,%v), Range handed over %d", k, w, ok, v)
+				}
+				*calls += 2
+			}
+			return true
+		})
+		*calls++
+		if bad != "" {
+			return fmt.Sprintf("map of %d keys, one goroutine, round %d: %s", n, round, bad)
+		}
+		for k, v := range model {
+			if touched[k] {
+				continue
+			}
+			if got, ok := seen[k]; !ok || got != v {
+				return fmt.Sprintf("map of %d keys, one goroutine, round %d: key %d was present and untouched during the whole Range but the Range visited (%d,%v) for it", n, round, k, got, ok)
+			}
+		}
+		// afterwards the map equals the model
+		cnt := 0
+		m.Range(func(k, v int) bool {
+			cnt++
+			if w, ok := model[k]; (!ok || w != v) && bad == "" {
+				bad = fmt.Sprintf("after the round the map holds (%d,%d), the model (%d,%v)", k, v, w, ok)
+			}
+			return true
+		})
+		if bad == "" && cnt != len(model) {
+			bad = fmt.Sprintf("after the round the map holds %d keys, the model %d", cnt, len(model))
+		}
+		if bad != "" {
+			return fmt.Sprintf("map of %d keys, one goroutine, round %d: %s", n, round, bad)
+		}
+	}
+	return ""
 }
 
 // bigMap runs one scripted history; pat selects which keys are deleted and how promotion is forced.
